@@ -389,8 +389,11 @@ def shuffle_ac(rng, t):
         rng.shuffle(cs)
         return [k] + cs
     if k == "call":
+        # keyword arguments are matched by name: the target may list them in another order
+        items = list((t[3] if len(t) > 3 else {}).items())
+        rng.shuffle(items)
         return [k, t[1], [shuffle_ac(rng, c) for c in t[2]],
-                {n: shuffle_ac(rng, v) for n, v in (t[3] if len(t) > 3 else {}).items()}]
+                {n: shuffle_ac(rng, v) for n, v in items}]
     if k == "sub":
         return [k, t[1], [shuffle_ac(rng, c) for c in t[2]]]
     return [k] + [shuffle_ac(rng, c) for c in t[1:]]
@@ -553,6 +556,21 @@ def bounded(payload):
     samples.append({"template": ["sum", ["prod", ["var", "c"], ["var", "a"]], ["prod", ["var", "b"], ["var", "a"]]],
                     "target": ["sum", ["prod", ["var", "c"], ["var", "a"]], ["var", "a"]], "free": ["b"],
                     "bound": None, "pre_match": None})
+
+    # ---- keyword arguments are matched by name, whatever order the two calls list them in ----
+    n_kw = 0
+    kwnames = ["t", "y", "h"]
+    for nk in (2, 3):
+        for tperm in itertools.permutations(kwnames[:nk]):
+            for eperm in itertools.permutations(kwnames[:nk]):
+                for free in (["u", "f", "x", "kt", "ky", "kh"], ["kt", "ky", "kh"]):
+                    T = ["sum", ["var", "u"], ["call", ["var", "f"], [["var", "x"]],
+                                               {n: ["var", "k" + n] for n in tperm}]]
+                    E = ["sum", ["var", "u"], ["call", ["var", "f"], [["var", "x"]],
+                                               {n: ["var", "v" + n] for n in eperm}]]
+                    run({"template": T, "target": E, "free": free, "bound": None, "pre_match": None})
+                    n_kw += 1
+    parts["keyword_order_pairs"] = n_kw
 
     # ---- random ----
     for i in range(n_random):
